@@ -96,6 +96,8 @@ type env struct {
 
 	gate atomic.Value // *sched.Sched of the running gated execution, or (*sched.Sched)(nil)
 
+	origStorage *core.Storage
+
 	backend string
 	lost    string // set when the server lost its leadership / restarted its cluster: no verdict
 }
@@ -160,6 +162,9 @@ func (e *env) setupStorage(base kv.Base) error {
 	}
 	if err := e.s.GetPersistOptions().Persist(st); err != nil {
 		return err
+	}
+	if e.origStorage == nil {
+		e.origStorage = e.s.GetStorage() // the server's own storage (owns the region leveldb); Close must get it back
 	}
 	e.rc.SetStorage(st)
 	e.s.SetStorage(st)
@@ -228,10 +233,11 @@ func (e *env) resetWorld(md *model) error {
 
 func main() {
 	r := ev.New("C14", "exploration")
-	r.Rule("one case = one sequential history of 40 single commands on a freshly reset cluster (store 1 Up, 3 regions on it): put-store new / same id / same address / id 0 / bad version (RaftCluster.PutStore and gRPC PutStore), RemoveStore with and without physically-destroyed, UpStore, VerifBuryStore, VerifCheckStores, SetStoreWeight, UpdateStoreLabels (merge and force), RemoveTombStoneRecords, gRPC StoreHeartbeat, region placements / evacuations by region heartbeats (sometimes with a peer on a store id that is registered only later), reload of the cluster from storage (RaftCluster.Stop, empty cache, RaftCluster.Start = LoadClusterInfo); targets are drawn from ids 1..6 in every state (incl. tombstone, destroyed, absent); quick: one fail-before/lost-ack fault at a random write of ~1/3 of the steps; thorough: every step is re-issued with a fault at its 1st, 2nd, ... store-record write until no write is left (1/8 of the steps: at every write of any key). distinct = sequence of (command, state of the target before, outcome class, fault class) of the history. Gated phases (lib/sched, every storage operation of two workers parked, both start orders, all release orders depth-first; distinct = family x case x start order x fault x released (worker,op) sequence): heartbeat-race = a flushing gRPC StoreHeartbeat of store 2 (first heartbeat after a reload) against 13 lifecycle operations on store 2 (remove, remove physically-destroyed (+replacement on its address), up, bury, check-stores, bury+cleanup, bury+replacement, put same id, labels, weight, leader-change style reload); lifecycle-race = 22 pairs of lifecycle operations of different kinds on the same store (put same id | remove / bury, up | bury / check-stores, remove | check-stores, cleanup | put same id, labels | put, weight | remove, reload | remove / bury ...), on two stores competing for one address, and the background check working on a snapshot of several offline stores against an operation on one of them; address-race = three workers: an operation on a third store (weight, flushing heartbeat, remove, bury) parked inside its storage write while it holds the cluster lock, and two registrations wanting the same address (put-new | put-new, move | put-new, move | move, up of the holder | put-new) started while it is parked, then all release orders; each heartbeat-/lifecycle-race case also with a fail-before / lost-ack at the first store-record write of one worker (quick: one variant, thorough: all four x both orders). Populated worlds: 100 and 230 (thorough: 99..2100) store records incl. ids 2^32+-1, 2^63+-1, 2^64-3..2^64-1 in every state left in storage, reloaded (served == stored record by record), then a judged history on the stores at the 100-record page boundaries and the huge ids, mass burial, cleanup, reload")
+	r.Rule("one case = one sequential history of 40 single commands on a freshly reset cluster (store 1 Up, 3 regions on it): put-store new / same id / same address / id 0 / bad version (RaftCluster.PutStore and gRPC PutStore), RemoveStore with and without physically-destroyed, UpStore, VerifBuryStore, VerifCheckStores, SetStoreWeight, UpdateStoreLabels (merge and force), RemoveTombStoneRecords, gRPC StoreHeartbeat, region placements / evacuations by region heartbeats (sometimes with a peer on a store id that is registered only later), reload of the cluster from storage (RaftCluster.Stop, empty cache, RaftCluster.Start = LoadClusterInfo); targets are drawn from ids 1..6 in every state (incl. tombstone, destroyed, absent); quick: one fail-before/lost-ack fault at a random write of ~1/3 of the steps; thorough: every step is re-issued with a fault at its 1st, 2nd, ... store-record write until no write is left (1/8 of the steps: at every write of any key). distinct = sequence of (command, state of the target before, outcome class, fault class) of the history. Gated phases (lib/sched, every storage operation of two workers parked, both start orders, all release orders depth-first; distinct = family x case x start order x fault x released (worker,op) sequence): heartbeat-race = a flushing gRPC StoreHeartbeat of store 2 (first heartbeat after a reload) against 13 lifecycle operations on store 2 (remove, remove physically-destroyed (+replacement on its address), up, bury, check-stores, bury+cleanup, bury+replacement, put same id, labels, weight, leader-change style reload); lifecycle-race = 22 pairs of lifecycle operations of different kinds on the same store (put same id | remove / bury, up | bury / check-stores, remove | check-stores, cleanup | put same id, labels | put, weight | remove, reload | remove / bury ...), on two stores competing for one address, and the background check working on a snapshot of several offline stores against an operation on one of them; address-race = three workers: an operation on a third store (weight, flushing heartbeat, remove, bury) parked inside its storage write while it holds the cluster lock, and two registrations wanting the same address (put-new | put-new, move | put-new, move | move, up of the holder | put-new) started while it is parked, then all release orders; each heartbeat-/lifecycle-race case also with a fail-before / lost-ack at the first store-record write of one worker (quick: one variant, thorough: all four x both orders). Populated worlds: 100 and 230 (thorough: 99..2100) store records incl. ids 2^32+-1, 2^63+-1, 2^64-3..2^64-1 in every state left in storage, reloaded (served == stored record by record), then a judged history on the stores at the 100-record page boundaries and the huge ids, mass burial, cleanup, reload. One-field grid: an Up and an Offline store registered with every field receive, via RaftCluster.PutStore, the gRPC handler and UpdateStoreLabels (merge/force), requests differing from the served record in exactly one field (address incl. host case / trailing dot / spaces / empty / the address of a live or offline store, status and peer address, labels order / key case / empty key or value / separators / duplicates / none, version, git hash, start timestamp, deploy path, client-supplied state and physically-destroyed mark), each first with a failing store-record write; empty-address sharing; ids 0, 2^64-2, 2^64-1 through the lifecycle. Server restart: history on an instrumented kv on the server own etcd root, server context cancelled then Close, new server on the same data directory, served after == served/stored before record by record, history continued on the new server")
 	r.Assume("commands are invoked on the RaftCluster object / the gRPC handler methods of a real bootstrapped single-member server; the cluster and the server use core.NewStorage over an instrumented in-memory kv.Base installed with RaftCluster.SetStorage after bootstrap (thorough, last shard: the etcd-backed kv.Base)")
 	r.Assume("storage writes of the server's own background goroutines (10 s checkStores tick, coordinator) are refused by the harness wrapper so that histories are sequential; the same code is driven through VerifCheckStores")
 	r.Assume("region counts of the model are the placements the harness delivered through VerifProcessRegionHeartbeat and pd acknowledged; VerifBuryStore is only called when its documented precondition (store empty) holds in the model; new stores are registered in state Up; peers are never placed on tombstone stores; after a reload the model's placements are what the stored region records (raw scan of raft/r/<id>) say")
+	r.Assume("addresses are judged by exact string equality (pd does not normalise host case, trailing dots or spaces); what pd does with a varied label / version / client-supplied state is not judged, only the property clauses; records are compared element-wise on the decoded store (labels in order, every field) plus the encoded form, weights numerically, last_heartbeat excluded")
 	r.Assume("stored record = what a raw scan of raft/s/<id> and schedule/store_weight/<id>/{leader,region} (absent weight = 1) yields; comparisons ignore last_heartbeat")
 	r.Assume("gated phase: quiescence with a worker blocked on the cluster lock is declared by the scheduler's settle interval (affects exploration order only); the lifecycle worker observes the served stores right after each acknowledgement; a heartbeat is assumed never to change state, flags, address, labels or weights; two observations overlapped by two operations may differ by two allowed moves (Up->Offline->Tombstone); a failed write inside a lifecycle-race is not judged by the served-unchanged clause because the other worker may legitimately change the same record")
 	rng := rand.New(rand.NewSource(r.ShardSeed()))
